@@ -1,9 +1,52 @@
+SIM = "deterministic simulation with fault injection: "
 CLAIMED = {
+ "C02": {
+  "level": "exploration",
+  "technique": SIM + "seeded generator/loop schedules (cancellation, exhaustion, recycling, padding), event log in execution order compared with a coroutine reference model",
+  "text": "Seeded search over sessions whose generators and loop bodies log their own execution order; nesting, zip, cancellation by return, failures inside generators, composition to depth 3, recycled contexts, loop-holding functions under 0..300 padded frames. The real event log, loop value and error class must equal those of the definitional reference model for every statement. Sampling, not proof; bounds in DESIGN.md 6.C02.",
+  "ref": "6.C02",
+  "note": "Trusted base: the real parser (shared by both sides), the reference model written from Readme.md, the harness. Programs avoid the corners the Readme leaves undefined (DESIGN.md 5.3).",
+ },
+ "C03": {
+  "level": "exploration",
+  "technique": SIM + "metamorphic placement of one pure call across session histories, call depths, frame-width padding, loop/generator contexts and after failures; real-vs-real equality",
+  "text": "The same side-effect-free call is evaluated in up to 10 placements of one session (top level, twice per statement, under d padded frames, in loop bodies, as a yielded value, after deep recursion, wide calls, loops, failed statements and injected aborts); all renderings must be equal. Needs no model. Sampling, not proof.",
+  "ref": "6.C03",
+  "note": "Generated functions never reassign a captured variable after capture (known finding K3) and never return closures inside arrays (known finding K4); those two shapes are recorded in known_findings.jsonl and replayed on every run.",
+ },
+ "C08": {
+  "level": "exploration",
+  "technique": SIM + "crash/recovery: fault sequences (parse errors, runtime errors of every class at depth / in loops / in generators, injected aborts) with a failure-free twin session as oracle",
+  "text": "Twin sessions over one generated history: A sees failing statements (unparsable text, runtime errors at top level, at call depth d, in loop iteration k, inside generators and generators of generators, aborts injected at the k-th fallible instruction), B sees only their completed global prefix. Every later statement must agree in value, output and error class, and the machine must be at rest after every failure. Sampling, not proof.",
+  "ref": "6.C08",
+  "note": "Error reports are cut from compared output (they quote instruction indices that legitimately differ; C19 checks them). Injected aborts only at opcodes that can fail from operand data.",
+ },
  "C09": {
   "level": "exploration",
-  "technique": "deterministic simulation: seeded session histories with injected aborts, conservation invariant after every statement, n-vs-2n twin sessions",
+  "technique": SIM + "seeded session histories with injected aborts, conservation invariant after every statement, n-vs-2n twin sessions for the growth clause",
   "text": "Seeded search over session histories (every statement form in discarded/used/returning position, loops, generators, cancellations by return, data-driven errors and injected aborts at the k-th fallible instruction): after every statement sp, frame depth, closure depth, live contexts and main ip must be at rest; twin sessions running the same stateless loop body n and 2n times must reach the same maximum sp and stack length. Sampling, not proof.",
   "ref": "6.C09",
   "note": "Trusts the verif-tagged accessors and the step hook; the driver re-enacts processInput (checked against node.Loop by C16); programs stay inside the fragment of DESIGN.md 5.3.",
+ },
+ "C13": {
+  "level": "exploration",
+  "technique": SIM + "operation histories on the real TLexer against a fresh-scan model; real combinators over a simulated call-recording lexer with injected lexer errors and premature end of input, against an ordered-choice reference recogniser",
+  "text": "Part A: random legal interleavings of Next/Snapshot/Rollback/Commit on the real transactional lexer (inputs include rejected characters so cached error entries are replayed) compared after every operation with a fresh scan. Part B: random parsers built from all 13 combinators run over a simulated RollbackLexer that records every call and injects lexer errors / early end of tokens; outcome and final position must equal the reference recogniser's, snapshots must be closed exactly once in LIFO order; B2 runs the same parser over the real TLexer and the simulated lexer and requires identical call traces. Sampling, not proof.",
+  "ref": "6.C13",
+  "note": "The fresh non-transactional scan is trusted (C14's business). Choose ends with an Ok() gate and repetition gates consume, as the package documents. The grammar in parser.go is not re-run on the simulated lexer.",
+ },
+ "C17": {
+  "level": "exploration",
+  "technique": SIM + "stdin delivery schedules (chunking, EOF position, transient errors) behind a stream seam, plus the built binary on file and pipe stdin; built-in contracts against the reference model",
+  "text": "read(): the simulator owns the byte source and delivers L1..Ln under seeded chunk schedules (cuts inside lines, many lines per chunk, 1-byte chunks, lines and chunks >= 4096 bytes, unterminated tail, transient error at a line boundary) while reads are issued from top level, nested calls, loop bodies, generators and zips; the i-th read must return Li, exhaustion must be a runtime error. 1 run in 40 repeats through cmd/calc with file and pipe stdin. The pure clauses (toa/write, aton round trip routed through stdin, fromto/elems/indices, wrong argument types/counts) are asserted against the model: that part is ordinary assertion, not schedule search.",
+  "ref": "6.C17",
+  "note": "Both newline conventions of read() are accepted (the Readme is silent). I/O errors are injected at line boundaries only.",
+ },
+ "C18": {
+  "level": "exploration",
+  "technique": SIM + "interleaved memory-operation histories over parent, forked and recycled memories against a model, allocation boundaries crossed by drawn widths/depths; wide-frame/deep-recursion programs with closed-form results",
+  "text": "Part A drives the real memory package through the VM's call/return/fork/recycle protocol with widths, depths and scratch heights drawn around every allocation boundary, comparing every value read with a trivial model. Part B runs calc functions with up to 300 locals whose middle section grows the stack, forks into recycled contexts, nests wide calls and resumes generators, then returns all locals (closed form), and recursion to 20000/100000 frames. Sampling, not proof.",
+  "ref": "6.C18",
+  "note": "Part A replaces the VM by the harness issuing the memory calls the VM would issue; legality restrictions are listed in the evidence assumptions (e.g. children destroyed before the forking frame returns, as RCONT/DCONT do).",
  },
 }
